@@ -8,6 +8,7 @@ import (
 	"runtime"
 	"strconv"
 	"strings"
+	"sync/atomic"
 	"time"
 
 	"google.golang.org/grpc"
@@ -30,18 +31,66 @@ func (o openCase) args() string {
 	return o.Via + " " + o.Method + " " + strconv.FormatBool(o.CS) + " " + strconv.FormatBool(o.SS) + " " + o.Pre
 }
 
-// ctx gives the caller's context in the state the case asks for.
+// ctx gives the caller's context in the state the case asks for: live, already cancelled, already expired —
+// plainly or WITH A CAUSE ("+K<n>": the context itself, "+A<n>": an ancestor; causeErr kinds) — or "late...": a
+// context that is live when the call looks at it first and has ended (cancelled, with a cause for "late+K<n>") by the
+// next look.
 func (o openCase) ctx() (context.Context, context.CancelFunc) {
-	switch o.Pre {
+	base, k, _ := strings.Cut(o.Pre, "+")
+	var kc callerCtx
+	if k != "" {
+		kc = parseCtx(k)
+	}
+	switch base {
 	case "cancel":
-		ctx, cancel := context.WithCancel(context.Background())
+		ctx, cancel := kc.endable(context.Background(), 0)
 		cancel()
 		return ctx, cancel
 	case "deadline":
-		return context.WithDeadline(context.Background(), time.Now().Add(-time.Second))
+		ctx, cancel := kc.endable(context.Background(), time.Nanosecond)
+		<-ctx.Done()
+		return ctx, cancel
+	case "late":
+		ctx, cancel := kc.endable(context.Background(), 0)
+		return &lateEnd{Context: ctx, end: cancel}, cancel
 	}
 	return context.WithTimeout(context.Background(), opTimeout)
 }
+
+// lateEnd is a caller's context that ends right after the first look at it: Err() answers nil once — the context is
+// live — and the context is cancelled before that answer is used. (A context may end at any moment; this one does so
+// at the earliest moment at which a call has already decided to go ahead.)
+type lateEnd struct {
+	context.Context
+	end   context.CancelFunc
+	looks atomic.Int32
+}
+
+func (l *lateEnd) Err() error {
+	if l.looks.Add(1) == 1 {
+		if err := l.Context.Err(); err != nil {
+			return err
+		}
+		l.end()
+		return nil
+	}
+	return l.Context.Err()
+}
+
+// openPres: the ended states of the caller's context: cancelled / expired, plainly and with every kind of cause on
+// the context itself (K) or on an ancestor (A).
+var openPres, lateKinds = func() (pres, late []string) {
+	for _, b := range []string{"cancel", "deadline"} {
+		pres = append(pres, b)
+		for _, k := range causeKinds {
+			pres = append(pres, b+"+"+k)
+		}
+	}
+	for _, k := range causeKinds {
+		late = append(late, "late+"+k)
+	}
+	return
+}()
 
 var openMethods = []string{svc + "Unary", svc + "ServerStream", svc + "ClientStream", svc + "BidiStream",
 	svc + "Nope", "/other.Svc/Unary", "/sc.go.test.TestApi", "Unary", svc + "unary"}
@@ -52,8 +101,9 @@ var realShape = map[string][2]bool{ // name -> {clientStreams, serverStreams}
 }
 
 func (o openCase) expect() string {
-	switch o.Pre {
-	case "cancel":
+	base, _, _ := strings.Cut(o.Pre, "+")
+	switch base {
+	case "cancel", "late":
 		return "Canceled" // a call on an ended context fails as such, whatever the method (as over gRPC)
 	case "deadline":
 		return "DeadlineExceeded"
@@ -121,6 +171,9 @@ func openGrpc(w *world, o openCase) string {
 	defer cancel()
 	if o.Via == "invoke" {
 		err := w.grpcCC.Invoke(ctx, o.Method, &testproto.UnaryRequest{}, &testproto.UnaryResponse{})
+		if st, _ := status.FromError(err); st.Message() == "no script-id" {
+			return "ok"
+		}
 		return status.Code(err).String()
 	}
 	cs, err := w.grpcCC.NewStream(ctx, &grpc.StreamDesc{ClientStreams: o.CS, ServerStreams: o.SS}, o.Method)
@@ -136,6 +189,20 @@ func checkOpen(w *world, mon *lib.Monitor, o openCase) string {
 	got := openWrapper(w, o)
 	want := o.expect()
 	mon.Eval(o.args(), true, map[string]any{"case": o, "wrapper": got})
+	if strings.HasPrefix(o.Pre, "late") {
+		// the context ended after the call had decided to go ahead: the call ends as cancelled, or with the handler's
+		// answer when that came first — on both transports (each looks at the context at moments of its own)
+		g := openGrpc(w, o)
+		mon.Count("late:" + got + "/grpc:" + g)
+		for _, r := range [][2]string{{"wrapper", got}, {"grpc", g}} {
+			if r[1] != "Canceled" && r[1] != "ok" {
+				mon.Violate("C13/open/"+o.Via+"/late-ended-context-not-reported-as-such",
+					"the caller's context ended right after the call was let in ("+r[0]+"): the call must end as cancelled (or with the handler's answer)",
+					o, "Canceled|ok", r[1])
+			}
+		}
+		return got
+	}
 	if got != want {
 		kind := "shape-mismatch-not-Internal"
 		if o.Pre != "live" {
@@ -171,10 +238,10 @@ func checkOpen(w *world, mon *lib.Monitor, o openCase) string {
 
 func runOpen(f lib.Flags, res *lib.Result, w *world, drv *lib.Driver) {
 	tie := res.Tie("conn-model", "K2",
-		"exhaustive: 9 method names (4 real, unknown in service, other service, malformed, wrong case) x {NewStream with 4 desc flag combinations, Invoke} on a live context, and x {Invoke, NewStream with the method's own flags} on an already cancelled / already expired context; Lean Conn.newStream/Conn.invoke result class = real wrapper; every case is non-trivial")
+		"exhaustive: 9 method names (4 real, unknown in service, other service, malformed, wrong case) x {NewStream with 4 desc flag combinations, Invoke} on a live context, and x {Invoke, NewStream with the method's own flags} on an already cancelled / already expired context x {plain, ended with a cause: own error / status error / the other context error wrapped, on the context itself / on an ancestor}; Lean Conn.newStream/Conn.invoke result class = real wrapper; every case is non-trivial")
 	tie.Exhaustive = true
 	mon := res.Monitor("open",
-		"unknown method -> Unimplemented (also compared with real gRPC), shape mismatch -> Internal, matching shape opens; oracle = hand-written table of test.proto")
+		"unknown method -> Unimplemented (also compared with real gRPC), shape mismatch -> Internal, matching shape opens; a call on an ended context (cancelled / expired, with or without a cause, also one ending right after Invoke's entry check) ends as cancelled / deadline exceeded as over real gRPC; oracle = hand-written table of test.proto")
 	var cases []openCase
 	for _, m := range openMethods {
 		for _, cs := range []bool{false, true} {
@@ -183,10 +250,17 @@ func runOpen(f lib.Flags, res *lib.Result, w *world, drv *lib.Driver) {
 			}
 		}
 		cases = append(cases, openCase{"invoke", m, false, false, "live"})
-		for _, pre := range []string{"cancel", "deadline"} {
+		for _, pre := range openPres {
 			cases = append(cases, openCase{"invoke", m, false, false, pre})
 			sh := realShape[m]
 			cases = append(cases, openCase{"stream", m, sh[0], sh[1], pre})
+		}
+	}
+	// (monitor only: the outcome is a set) the context ends right after Invoke's entry check
+	var late []openCase
+	for _, pre := range append([]string{"late"}, lateKinds...) {
+		for i := 0; i < 4; i++ {
+			late = append(late, openCase{"invoke", svc + "Unary", false, false, pre})
 		}
 	}
 	var model []string
@@ -210,6 +284,9 @@ func runOpen(f lib.Flags, res *lib.Result, w *world, drv *lib.Driver) {
 			tie.Record(c.args(), true, c, model[i], got)
 			tie.Count(got)
 		}
+	}
+	for _, c := range late {
+		checkOpen(w, mon, c)
 	}
 	if n := settle(base); n > 0 {
 		mon.Violate("C13/open/goroutine-left", "goroutines above the baseline after opening and cancelling calls", nil, "0", fmt.Sprint(n))
